@@ -44,7 +44,7 @@ type Bounds struct {
 
 func TierBounds(tier string) Bounds {
 	if tier == "thorough" {
-		return Bounds{Pools: []int64{0, 1, 2, 5, 7}, Amounts: []int64{0, 1, 3}, Depth: 8}
+		return Bounds{Pools: []int64{0, 1, 2, 5, 7}, Amounts: []int64{0, 1, 3}, Depth: 10}
 	}
 	return Bounds{Pools: []int64{0, 2, 5}, Amounts: []int64{1, 3}, Depth: 4}
 }
